@@ -152,6 +152,34 @@ pub fn run(o: &Opts) {
       }
     }
   }
+  // ---- host documents: HTML pages whose embedded regions of ONE language carry different labels
+  //      (`<script>`, `<script lang="javascript">`, `lang=ts`, `lang="typescript"`, two <style> blocks):
+  //      every region must be searched — by `sg run` with -l, with the language inferred, and by `sg scan`
+  {
+    let dir = fresh_dir(&o.out, "html_regions");
+    let page = "<html><head>\n<style>a { color: red; }</style>\n<style type=\"text/css\">b { color: blue; }</style>\n</head><body>\n<script>alert(1); foo(alert(11))</script>\n<script lang=\"javascript\">alert(2)</script>\n<script lang=ts>alert(3)</script>\n<script lang=\"typescript\">alert(4); let x: number = alert(44)</script>\n<script type=\"module\">alert(5)</script>\n</body></html>\n";
+    std::fs::write(dir.join("a.html"), page).unwrap();
+    std::fs::create_dir_all(dir.join("sub")).unwrap();
+    std::fs::write(dir.join("sub/b.html"), page.replace("alert(", "alert(7")).unwrap();
+    std::fs::write(dir.join("rule.yml"), "id: no-alert\nlanguage: JavaScript\nrule:\n  pattern: alert($A)\n---\nid: no-alert-ts\nlanguage: TypeScript\nrule:\n  pattern: alert($A)").unwrap();
+    // expected from the text: every alert(..) in a js-labelled region for js, in a ts-labelled region for ts
+    let cases: Vec<(Vec<&str>, usize)> = vec![
+      (vec!["run", "-p", "alert($A)", "-l", "js", "--json=stream", "."], 8),       // 1, 11, 2, 5 per page x 2 pages
+      (vec!["run", "-p", "alert($A)", "-l", "ts", "--json=stream", "."], 6),       // 3, 4, 44 per page
+      (vec!["scan", "-r", "rule.yml", "--json=stream", "."], 14),
+    ];
+    for (args, want) in cases {
+      let r = sg(&dir, &args, None, 60);
+      out.checked();
+      out.count("cli:html-regions");
+      let got = json_lines(&r.stdout).unwrap_or_default().len();
+      out.nontrivial(&format!("{args:?}"));
+      if got != want {
+        out.oracle_fail("", &format!("sg {} on two HTML pages whose embedded regions of one language carry different labels: {got} matches, the text has {want}", args.join(" ")),
+          json!({"stream": "c01cli-html", "stdout": r.stdout.chars().take(500).collect::<String>()}));
+      }
+    }
+  }
   out.finish("temporary directory trees (nested directories, 4 files per tree) of corpus sources; patterns cut from ONE of the files so that other files lack their tokens, every strictness level: \
               `sg run -p .. --strictness .. --json=stream` on the tree and `--stdin` on one file, and `sg scan -r` with 1-3 rules, against matching every node of every file with the library matcher. \
               non-trivial = the pattern matches somewhere");
